@@ -28,6 +28,11 @@ class Syn:
         # canonical names, so that no syntax-tree rule depends on what a private function happens to be called
         self.renamed = {}
         mirp = os.path.join(os.path.dirname(os.path.abspath(path)), "mir.json")
+        fren = _field_renames(mirp) if os.path.exists(mirp) else {}
+        if fren:
+            for f in self.j["files"]:
+                if not f["path"].endswith("/parser.rs"):
+                    _apply_field_renames(f, fren)
         if os.path.exists(mirp):
             self.renamed = _role_renames(mirp)
             if self.renamed:
@@ -304,3 +309,58 @@ def _type_renames(mirp):
         except Exception:
             _TRENAMES[mirp] = {}
     return _TRENAMES[mirp]
+
+
+_FRENAMES = {}
+
+
+def _field_renames(mirp):
+    """{field name in today's source: canonical name} (owners dropped: the syntax tree does not know them; a name that
+    two different owners would map differently is left alone)"""
+    if mirp not in _FRENAMES:
+        from .roles import field_renames, type_renames
+        try:
+            with open(mirp) as f:
+                raw = f.read()
+            j = json.loads(raw)
+            fr = field_renames(j["adts"])
+            flat, bad = {}, set()
+            for (o, n), c in fr.items():
+                if n in flat and flat[n] != c:
+                    bad.add(n)
+                flat[n] = c
+            # a name that is also a field of some other struct (and stays there) is ambiguous in the syntax tree
+            others = {f_["name"] for a in j["adts"] for v in a.get("variants", []) for f_ in v["fields"] if (a["path"], f_["name"]) not in fr}
+            _FRENAMES[mirp] = {n: c for n, c in flat.items() if n not in bad and n not in others}
+        except Exception:
+            _FRENAMES[mirp] = {}
+    return _FRENAMES[mirp]
+
+
+def _apply_field_renames(tree, ren):
+    for n in walk(tree):
+        k = n.get("k")
+        if k == "Field" and isinstance(n.get("member"), str) and n["member"].strip() in ren:
+            n["member"] = ren[n["member"].strip()]
+        elif k in ("Struct", "PStruct") and isinstance(n.get("fields"), list):
+            for fl in n["fields"]:
+                m = fl.get("member")
+                if isinstance(m, str) and m.strip() in ren:
+                    fl["member"] = ren[m.strip()]
+                    if fl.get("shorthand"):
+                        fl["shorthand"] = False  # `S { x }` with field x renamed to y reads `S { y: x }`
+
+
+def norm_owned_text(txt):
+    """one spelling for the ways of making an owned String of a text: `.to_owned()`, `.to_string()`, `String::from(x)`,
+    `x.into()` are `.to_string()`; `String::new()` is `"".to_string()` (all whitespace removed)"""
+    import re as _re
+    t = txt.replace(" ", "")
+    t = t.replace(".to_owned()", ".to_string()")
+    t = t.replace("String::new()", '"".to_string()')
+    for _ in range(4):
+        t2 = _re.sub(r"String::from\(((?:[^()]|\([^()]*\))*)\)", r"\1.to_string()", t)
+        if t2 == t:
+            break
+        t = t2
+    return t
